@@ -72,6 +72,39 @@ pub fn roundtrip(text: &str, spec: Option<&str>) -> RT {
     RT::Ok { bytes_t1: t1.len() }
 }
 
+/// the oracle for a model built through the API: write, reload, compare, write again
+pub fn roundtrip_model(m0: &a2lfile::A2lFile) -> RT {
+    let t1 = match write(m0) {
+        Ok(t) => t,
+        Err(p) => return RT::Viol { oracle: "panic-write", what: p },
+    };
+    let m1 = match load(&t1, None, true) {
+        Loaded::Ok(f, log) => {
+            // (deprecated elements legitimately produce a deprecation notice in a 1.71 file)
+            if log.iter().any(|e| !variant_of(e).ends_with("Deprecated")) {
+                return RT::Viol { oracle: "api-model-diagnosed", what: format!("text written from an API-built model produces diagnostics: {}\n{}", log[0], short(&t1, 500)) };
+            }
+            f
+        }
+        Loaded::Err(e) => return RT::Viol { oracle: "reload-fails", what: format!("text written from an API-built model cannot be loaded: {e}\n--- written text:\n{}", short(&t1, 600)) },
+        Loaded::Panic(p) => return RT::Viol { oracle: "panic-reload", what: p },
+    };
+    if m1 != *m0 {
+        let (d0, d1) = (format!("{m0:?}"), format!("{m1:?}"));
+        let pos = d0.bytes().zip(d1.bytes()).position(|(a, b)| a != b).unwrap_or(0);
+        let s = pos.saturating_sub(60);
+        return RT::Viol { oracle: "model-differs", what: format!("reloaded model differs near: …{}… vs …{}…", short(&d0[floor_char(&d0, s)..], 160), short(&d1[floor_char(&d1, s.min(d1.len()))..], 160)) };
+    }
+    let t2 = match write(&m1) {
+        Ok(t) => t,
+        Err(p) => return RT::Viol { oracle: "panic-write", what: p },
+    };
+    if t2 != t1 {
+        return RT::Viol { oracle: "text-drifts", what: format!("second write differs: {} -> {} bytes\n--- first:\n{}\n--- second:\n{}", t1.len(), t2.len(), short(&t1, 400), short(&t2, 400)) };
+    }
+    RT::Ok { bytes_t1: t1.len() }
+}
+
 fn floor_char(s: &str, mut i: usize) -> usize {
     i = i.min(s.len());
     while !s.is_char_boundary(i) {
@@ -472,6 +505,53 @@ pub fn run(tier: &str) -> Run {
             run.sample(json!({"label": cases[i].label, "text": short(&cases[i].text, 400)}));
         }
     }
+    // models built through the API: every (parent, child) slot of the grammar, child once / twice,
+    // sequences empty / filled, with and without sort_new_items before writing
+    let n_api = crate::gen_builders::N_SLOTS * 8;
+    let api = par_map(
+        n_api,
+        &|j| {
+            let slot = j / 8;
+            let count = 1 + (j % 2);
+            let seqlen = (j / 2) % 2 * 2;
+            let sorted = (j / 4) % 2 == 1;
+            let built = vcore::explore::guard(|| {
+                let (label, mut f) = crate::gen_builders::build_slot(slot, count, seqlen);
+                if sorted {
+                    f.sort_new_items();
+                }
+                (label, f)
+            });
+            match built {
+                Err(p) => (format!("api slot {slot}"), RT::Viol { oracle: "panic-build", what: p }),
+                Ok((label, f)) => (format!("{label} count={count} seqlen={seqlen} sort_new_items={sorted}"), roundtrip_model(&f)),
+            }
+        },
+        &|j| {
+            println!("MACHINERY-ERROR: C01 api case {j} hangs");
+            std::process::exit(2);
+        },
+    );
+    for (j, (label, r)) in api.into_iter().enumerate() {
+        run.evaluations += 1;
+        run.transitions += 3;
+        let h = fnv1a(label.as_bytes());
+        run.states.insert(h);
+        match r {
+            RT::Ok { .. } => {
+                run.nontrivial.insert(h);
+                run.outcome("api: stable");
+            }
+            RT::NotAccepted => run.outcome("api: not accepted"),
+            RT::Viol { oracle, what } => {
+                run.outcome("api: violation");
+                let slot = label.split(' ').next().unwrap_or("").to_string();
+                let key = if oracle.starts_with("panic") { format!("C01/{oracle} {}", vcore::explore::panic_key(&what)) } else { format!("C01/{oracle}/{slot}") };
+                run.violation(key, format!("{label}: {what}"), json!({"api_case": j, "label": label}));
+            }
+        }
+    }
+    run.require("api: stable", 500);
     run.require("grammar: stable", 1000);
     run.require("ws: stable", 1000);
     run.require("cm: stable", 1000);
@@ -483,6 +563,17 @@ pub fn run(tier: &str) -> Run {
 }
 
 pub fn replay(v: &Value) -> Result<String, String> {
+    if let Some(j) = v["api_case"].as_u64() {
+        let j = j as usize;
+        let (_, mut f) = crate::gen_builders::build_slot(j / 8, 1 + (j % 2), (j / 2) % 2 * 2);
+        if (j / 4) % 2 == 1 {
+            f.sort_new_items();
+        }
+        return match roundtrip_model(&f) {
+            RT::Viol { oracle, what } => Err(format!("{oracle}: {what}")),
+            _ => Ok("stable".into()),
+        };
+    }
     let text = v["text"].as_str().ok_or("no text")?;
     let spec = v["spec"].as_str();
     match roundtrip(text, spec) {
